@@ -153,7 +153,12 @@ def execute(acc, case):
             expected_app = [k for k in kinds if k[0] == "APP"]
             expected_dwr = [k[1] for k in kinds if k[0] == "DWR"]
             t_inject[0] = sc.sched.now + 1e-9
-            sc.inject(stream, chunks=chunks, settle=case.get("settle", True))
+            if case.get("gap"):
+                # a stalled sender: after each segment nothing arrives for longer than the receive worker's idle poll (1 s)
+                from bvm import scen
+                scen.slow_ticker(0.002)
+                acc.counters["executions_with_silence_between_segments"] += 1
+            sc.inject(stream, chunks=chunks, settle=case.get("settle", True), gap=case.get("gap"))
             done = lambda: len(delivered) >= len(expected_app) and len([c for c in sc.consumed if c[0] == "Open"]) >= len(kinds) - nbad
             t_last_byte = sc.sched.now
             ok = sc.sched.run_until(done, 3.0 + 0.01 * len(kinds), "delivery")
@@ -381,6 +386,11 @@ def plan(tier, seed):
             for seg in (["per-message"] if q else ["per-message", "header-internal", "whole"]):
                 cases.append({"seed": seed * 37 + k, "n": 5, "seg": seg, "strategy": "rw", "p": 0.02, "role": ("client", "server")[k % 2],
                               "settle": False, "park_worker": [who, k]})
+    for i in range(10 if q else 200):
+        # silence longer than the receive worker's idle poll in the middle of a message (few segments, long gaps)
+        cases.append({"seed": seed * 991 + i, "n": rng.choice([1, 2, 3]), "seg": rng.choice(["header-internal", "split@%d" % rng.randrange(1, 100), "split@%d" % rng.randrange(100, 220), "per-message"]),
+                      "strategy": ("rr", "rw")[i % 2], "p": 0.02, "role": ("client", "server")[i % 2], "settle": True, "gap": rng.choice([1.1, 1.6, 2.7]),
+                      "max_steps": 3_000_000})
     for i in range(3 if q else 60):
         # long backlogs: hundreds of messages coalesced into one or a few reads, far more than the state machine takes per tick
         cases.append({"seed": seed * 983 + i, "n": rng.choice([150, 300, 600]), "seg": rng.choice(["whole", "whole", "random"]), "strategy": rng.choice(["rr", "rw"]),
@@ -411,7 +421,7 @@ def main(tier, seed):
                           ["vnet is a model of Linux TCP sockets (fidelity self-test in tools/selftest_vnet.py); schedules are explored at "
                            "synchronisation-operation and source-line granularity of transport.py/setup.py/statemachine.py",
                            "bounded progress: all messages delivered within 3 virtual seconds after the last byte (the unchanged code needs milliseconds)"],
-                          t0, require_counters=("executions", "steps", "recv_chunks", "real_loopback_ok", "consumer_parked_while_messages_arrive", "library_thread_parked_while_bytes_arrive", "twin_node_executions", "refused_messages_in_the_sequences"))
+                          t0, require_counters=("executions", "steps", "recv_chunks", "real_loopback_ok", "consumer_parked_while_messages_arrive", "library_thread_parked_while_bytes_arrive", "twin_node_executions", "refused_messages_in_the_sequences", "executions_with_silence_between_segments"))
 
 
 def replay(w):
